@@ -57,12 +57,18 @@ var c16Root string
 // withTree builds the tree in a scratch directory, makes it the working
 // directory and calls fn.
 func withTree(tree []c16Entry, fn func(root string) error) error {
-	root, err := os.MkdirTemp(outDir(), "c16-tree-")
+	// the tree lives alone in a private parent directory, so that patterns
+	// matching ".." see a stable directory as well
+	parent, err := os.MkdirTemp(outDir(), "c16-")
 	if err != nil {
 		return fmt.Errorf("harness: %v", err)
 	}
-	defer os.RemoveAll(root)
-	root, _ = filepath.EvalSymlinks(root)
+	defer os.RemoveAll(parent)
+	parent, _ = filepath.EvalSymlinks(parent)
+	root := filepath.Join(parent, "tree")
+	if err := os.Mkdir(root, 0o755); err != nil {
+		return fmt.Errorf("harness: %v", err)
+	}
 	if err := buildTree(root, tree); err != nil {
 		return fmt.Errorf("harness: cannot build the tree: %v", err)
 	}
